@@ -9,7 +9,7 @@ import Splipy.Lemmas.C18Cells
 # C18 — faces of trilinear cells: vertex order / normals, owner below neighbour
 -/
 
-namespace Splipy.MP
+namespace Splipy.MP.C18L
 
 /-! ## the six faces of one cell as `TopologicalNode.faces` lists them -/
 
@@ -90,22 +90,22 @@ end Normals
 /-! ## owner below neighbour -/
 
 theorem ravel_bump : ∀ (s i : List ℕ) (d : ℕ), d < s.length → i.length = s.length →
-    ravel s (bump i d) = ravel s i + shapeSize (s.drop (d + 1))
+    ravel s (bumpIdx i d) = ravel s i + shapeSize (s.drop (d + 1))
   | [], _, d, hd, _ => by simp at hd
   | n :: ns, [], d, _, hl => by simp at hl
   | n :: ns, x :: xs, 0, _, _ => by
-    simp only [bump, List.set_cons_zero, List.getD_cons_zero, ravel, List.drop_succ_cons, List.drop_zero]
+    simp only [bumpIdx, List.set_cons_zero, List.getD_cons_zero, ravel, List.drop_succ_cons, List.drop_zero]
     ring
   | n :: ns, x :: xs, d + 1, hd, hl => by
     have ih := ravel_bump ns xs d (by simpa using hd) (by simpa using hl)
-    simp only [bump, List.set_cons_succ, List.getD_cons_succ, ravel, List.drop_succ_cons] at ih ⊢
+    simp only [bumpIdx, List.set_cons_succ, List.getD_cons_succ, ravel, List.drop_succ_cons] at ih ⊢
     rw [ih]; ring
 
 theorem inRange_of_set_pred {cs idx : List ℕ} {d : ℕ} (h : InRange idx (cs.set d (cs.getD d 0 - 1))) :
-    InRange idx cs ∧ InRange (bump idx d) cs := by
+    InRange idx cs ∧ InRange (bumpIdx idx d) cs := by
   obtain ⟨hl, hr⟩ := h
   rw [List.length_set] at hl hr
-  refine ⟨⟨hl, fun e he => ?_⟩, ⟨by simp [bump, hl], fun e he => ?_⟩⟩
+  refine ⟨⟨hl, fun e he => ?_⟩, ⟨by simp [bumpIdx, hl], fun e he => ?_⟩⟩
   · have := hr e he
     simp only [List.getD_eq_getElem?_getD, List.getElem?_set] at this ⊢
     by_cases hed : d = e
@@ -114,7 +114,7 @@ theorem inRange_of_set_pred {cs idx : List ℕ} {d : ℕ} (h : InRange idx (cs.s
       simp at this; omega
     · simpa [hed] using this
   · have := hr e he
-    simp only [bump, List.getD_eq_getElem?_getD, List.getElem?_set] at this ⊢
+    simp only [bumpIdx, List.getD_eq_getElem?_getD, List.getElem?_set] at this ⊢
     by_cases hed : d = e
     · subst hed
       have he' : d < idx.length := by omega
@@ -165,4 +165,4 @@ theorem cellArrays_blocks : ∀ (shapes : List (List ℕ)) (start : ℕ) (i j : 
     simp only [cellArrays, List.getD_cons_succ, List.length_cons] at ha hb hlen
     exact cellArrays_blocks ss _ i j (by omega) a ha b hb (by omega)
 
-end Splipy.MP
+end Splipy.MP.C18L
